@@ -45,7 +45,7 @@ ASSUMPTIONS = [
     "remaining-operation counts only on non-flexible instances; filters only with positive durations",
     "feature arrays are float32 by design: instances with time values beyond 2**24 are not used here",
 ]
-REQUIRED_COUNTERS = {"episodes_after_reset": 50, "values_checked": 20000, "composite_checks": 300, "constructions": 500,
+REQUIRED_COUNTERS = {"nested_composites": 30, "episodes_after_reset": 50, "values_checked": 20000, "composite_checks": 300, "constructions": 500,
                      "obs_EarliestStartTimeObserver": 50, "obs_DurationObserver": 50,
                      "obs_IsReadyObserver": 50, "obs_IsScheduledObserver": 50,
                      "obs_PositionInJobObserver": 50, "obs_RemainingOperationsObserver": 50,
@@ -279,11 +279,26 @@ def run_history(ctx, case):
         ctx.count("obs_" + type(ob).__name__)
         ctx.count("constructions")
     comp = None
+    nested = None
     if case["mode"] != "single" and observers:
         comp = (CompositeFeatureObserver(d, feature_observers=observers)
                 if rng.random() < 0.5 else CompositeFeatureObserver(d))
         parts = observers if comp.feature_observers is observers else list(comp.feature_observers)
         check_composite(ctx, comp, parts, "initial")
+        if rng.random() < 0.4:
+            # a composite may itself be a component: explicitly, or picked up implicitly because
+            # it is a subscribed FeatureObserver
+            extra = make_observer(d, {"type": rng.choice(TYPES[:4]), "feature_types": None, "form": "class"})
+            observers = observers + [extra]   # a new list: comp.feature_observers must stay as it is
+            if rng.random() < 0.5:
+                outer_parts = [comp, extra]
+                outer = CompositeFeatureObserver(d, feature_observers=outer_parts)
+            else:
+                outer = CompositeFeatureObserver(d)
+                outer_parts = list(outer.feature_observers)
+            nested = (outer, outer_parts)
+            ctx.count("nested_composites")
+            check_composite(ctx, outer, outer_parts, "nested initial")
     clock_after_dispatch = {}   # op -> reference clock right after its own dispatch
 
     def step_info(name, ft, ent):
@@ -328,6 +343,8 @@ def run_history(ctx, case):
         ok = compare(ctx, run, observers, now, avail, step_info)
         if comp is not None:
             check_composite(ctx, comp, parts, f"after {len(r.history)} dispatches")
+        if nested is not None:
+            check_composite(ctx, nested[0], nested[1], f"nested after {len(r.history)} dispatches")
     ctx.note_case(case, nontrivial, fingerprint=str(hash(
         (gen.fingerprint(case["instance"]), str(case.get("filter")), str(case["observers"]),
          tuple(r.history)))))
